@@ -9,22 +9,6 @@ import OsacaVerif.Lemmas.LCDPost
 namespace OsacaVerif.DG
 open OsacaVerif OsacaVerif.Text
 
-/-- a kernel as OSACA sees it: line numbers strictly increasing (in particular pairwise distinct) -/
-def WFKernel (k : List Ins) : Prop := List.Pairwise (· < ·) (k.map (·.line))
-
-instance (k : List Ins) : Decidable (WFKernel k) := by unfold WFKernel; infer_instance
-
-theorem WFKernel.tail {p : Ins} {rest : List Ins} (h : WFKernel (p :: rest)) : WFKernel rest := by
-  unfold WFKernel at *
-  simp only [List.map_cons, List.pairwise_cons] at h
-  exact h.2
-
-theorem WFKernel.head_lt {p : Ins} {rest : List Ins} (h : WFKernel (p :: rest)) : ∀ c ∈ rest, p.line < c.line := by
-  unfold WFKernel at h
-  simp only [List.map_cons, List.pairwise_cons] at h
-  intro c hc
-  exact h.1 c.line (List.mem_map.mpr ⟨c, hc, rfl⟩)
-
 /-! ### `add_edge` semantics -/
 
 theorem Edge.ext' {a b : Edge} (h1 : a.src = b.src) (h2 : a.dst = b.dst) (h3 : a.w = b.w) : a = b := by
@@ -32,7 +16,7 @@ theorem Edge.ext' {a b : Edge} (h1 : a.src = b.src) (h2 : a.dst = b.dst) (h3 : a
 
 /-- after `add_edge`: the new edge is there, edges with another (src, dst) pair are untouched,
     nothing else -/
-theorem mem_addEdge (acc : List Edge) (x g : Edge) :
+theorem mem_addEdge_p1 (acc : List Edge) (x g : Edge) :
     g ∈ addEdge acc x ↔ g = x ∨ (¬ (g.src = x.src ∧ g.dst = x.dst) ∧ g ∈ acc) := by
   unfold addEdge
   by_cases hany : acc.any (fun f => f.src == x.src && f.dst == x.dst) = true
@@ -74,7 +58,7 @@ theorem mem_foldl_addEdge (es acc : List Edge) (g : Edge) :
   induction es generalizing acc with
   | nil => simp
   | cons x es ih =>
-    rw [List.foldl_cons, ih, mem_addEdge]
+    rw [List.foldl_cons, ih, mem_addEdge_p1]
     constructor
     · rintro (⟨es1, es2, rfl, h⟩ | ⟨hx | ⟨hk, ha⟩, h⟩)
       · exact Or.inl ⟨x :: es1, es2, rfl, h⟩
@@ -101,14 +85,14 @@ theorem mem_foldl_addEdge (es acc : List Edge) (g : Edge) :
 
 /-- **what the graph keeps**: an edge is in `dedupLast es` iff it is the *last* emission for its
     (src, dst) pair -/
-theorem mem_dedupLast (es : List Edge) (g : Edge) :
+theorem mem_dedupLast_p1 (es : List Edge) (g : Edge) :
     g ∈ dedupLast es ↔ ∃ es1 es2, es = es1 ++ g :: es2 ∧ ∀ f ∈ es2, ¬ (f.src = g.src ∧ f.dst = g.dst) := by
   unfold dedupLast
   rw [mem_foldl_addEdge]
   simp
 
 theorem dedupLast_subset (es : List Edge) (g : Edge) (h : g ∈ dedupLast es) : g ∈ es := by
-  obtain ⟨es1, es2, rfl, _⟩ := (mem_dedupLast es g).mp h
+  obtain ⟨es1, es2, rfl, _⟩ := (mem_dedupLast_p1 es g).mp h
   simp
 
 /-! ### edges point forward -/
